@@ -40,7 +40,7 @@ def cases(seed, tier):
         out.append(c)
     for k in range(n // 2):
         r = random.Random(sch.np_seed(f"c04.syn{k}"))
-        out.append(dict(synthetic=True, seed=sch.np_seed(f"syn{k}") % (2**31), d=r.choice([1, 2, 3]), T=r.choice([1, 2, 3, 5, 8, 12, 20]), unequal=r.random() < 0.7, shuffle=r.random() < 0.6,
+        out.append(dict(synthetic=True, seed=sch.np_seed(f"syn{k}") % (2**31), d=r.choice([1, 2, 3]), T=r.choice([1, 2, 3, 5, 8, 12, 20, 129, 200, 300]), unequal=r.random() < 0.7, shuffle=r.random() < 0.6,
                         scale=r.choice([1.0, 100.0, 1e4, 1e6])))
     return out
 
